@@ -28,14 +28,15 @@ for m in sorted(glob.glob(os.path.join(V, "seeded", "*", "meta.json")), key=skey
     if "history" in j or not j.get("detected"):
         nmiss += 1
         miss.append("| seeded/%s | %s |" % (name, (j.get("history") or ("**still missed**: " + j.get("miss_reason", "see meta.json"))).replace("|", "\\|")))
-tot = first = later = never = 0; perprop = {}
+tot = first = later = never = other = 0; perprop = {}
 for m in glob.glob(os.path.join(V, "seeded", "*", "meta.json")):
     j = json.load(open(m)); tot += 1; pp = perprop.setdefault(j["property"], [0, 0, 0])
     if not j.get("detected"): never += 1; pp[2] += 1
+    elif j.get("detected_by"): other += 1; pp[2] += 1
     elif "history" in j and j["history"].startswith(("missed", "first detected only")): later += 1; pp[1] += 1
     else: first += 1; pp[0] += 1
-ssum = ["%d seeded changes are stored: %d were reported by the check of their property the first time it was run against them, %d after the check had been strengthened (section 11.1c), %d is a documented miss." % (tot, first, later, never), "",
-        "| property | reported at once | reported after strengthening | not reported |", "|---|---|---|---|"] + ["| %s | %d | %d | %d |" % (p, v[0], v[1], v[2]) for p, v in sorted(perprop.items())]
+ssum = ["%d seeded changes are stored: %d were reported by the check of their property the first time it was run against them, %d after the check had been strengthened (section 11.1c), %d is reported by the check of another property only (its code belongs to that property; see its meta.json), %d is a documented miss." % (tot, first, later, other, never), "",
+        "| property | reported at once | reported after strengthening | not reported by this property's check |", "|---|---|---|---|"] + ["| %s | %d | %d | %d |" % (p, v[0], v[1], v[2]) for p, v in sorted(perprop.items())]
 mut = {}
 for m in sorted(glob.glob(os.path.join(V, "mutants", "*.patch"))):
     n = os.path.basename(m)[:-6]; mut.setdefault(n.split("_")[0], []).append(n)
